@@ -4,7 +4,8 @@
      case  [id, prop, kind, N, ready0]      a fresh writer (resets the tracked state)
      w     [inl,outl,res,c,p,copy_ok,chunks,term,termlen,junk,ready, probe, maxprobe]
      dw    [amt,res,ready]                  consume_direct_write
-     mx    [n,m,chunked]                    calculate_max_input
+     mx    [n,m,chunked,ready]              calculate_max_input
+     adv   [ready,advanced]                 Flow::proceed / Call::into_receive as the last call on the writer
      panic [during]   stuck [during]                                                    *)
 EXTENDS BodyWriter, TraceCommon, IOUtils
 
@@ -61,9 +62,14 @@ TDirect ==
 
 TMax ==
   /\ E.ev = "mx"
-  /\ Step(MaxInputFails(E, prevmx))
+  /\ Step(MaxInputFails(E, prevmx) \cup QueryFails(s, E))
   /\ prevmx' = <<E.n, E.m>>
   /\ UNCHANGED <<s, cs, row>>
+
+TAdvance ==
+  /\ E.ev = "adv"
+  /\ Step(AdvanceFails(s, E))
+  /\ UNCHANGED <<s, cs, row, prevmx>>
 
 TMaxBig ==
   /\ E.ev = "mxb"
@@ -75,7 +81,7 @@ TPanic ==
   /\ Step({<<cs.prop, E.ev \o " during " \o E.during>>})
   /\ UNCHANGED <<s, cs, row, prevmx>>
 
-Next == l <= N /\ (TCase \/ TWrite \/ TDirect \/ TMax \/ TMaxBig \/ TPanic)
+Next == l <= N /\ (TCase \/ TWrite \/ TDirect \/ TMax \/ TMaxBig \/ TAdvance \/ TPanic)
 Spec == Init /\ [][Next]_vars
 
 Report == l = N + 1 => Verdict(N, viol, nv, [comp |-> "BodyWriter"])
